@@ -270,10 +270,38 @@ def run_cfg(ctx, p, cfg, release):
             if rv["k"] == "agg" and rv.get("adt") == PIECE and rv.get("variant") == "Text":
                 e = f._rvalue(rv, frozenset(), 20, b)
                 txt = deep_strip(dict(e[3]).get("0"))
-                if txt[0] != "const":
-                    continue
-                chars = []
-                for sb, sw, al in f.conditions(b):
+                cases = []
+                if txt[0] == "const":
+                    cases.append((txt, [b]))
+                elif txt[0] == "phi" and all(deep_strip(a)[0] == "const" for a in txt[1]):
+                    # the literal was chosen in an earlier match and the piece is built after the join: the characters
+                    # that select a literal are the conditions of the edge that assigned it
+                    op = rv["fields"][0]
+                    pl = op.get("copy") or op.get("move")
+                    ll = pl["l"] if pl and not pl["p"] else None
+                    for _ in range(4):    # look through plain copies and reborrows (`&*lit`)
+                        ds_ = [x for x in f.defs(ll)] if ll is not None else []
+                        if len(ds_) == 1 and not ds_[0][0] and ds_[0][3] == "rv":
+                            rv_ = ds_[0][4]
+                            if rv_["k"] == "use" and (rv_["a"].get("copy") or rv_["a"].get("move")) and not (rv_["a"].get("copy") or rv_["a"].get("move"))["p"]:
+                                ll = (rv_["a"].get("copy") or rv_["a"].get("move"))["l"]
+                                continue
+                            if rv_["k"] == "ref" and rv_["place"]["p"] == ["*"]:
+                                ll = rv_["place"]["l"]
+                                continue
+                        break
+                    for db, de in (f.root_defs(ll) if ll is not None else []):
+                        de = deep_strip(de)
+                        if de[0] == "const":
+                            cases.append((de, [db, b]))
+                for txt, cblocks in cases:
+                  chars = []
+                  conds = []
+                  for cb_ in cblocks:
+                      for cnd in f.conditions(cb_):
+                          if cnd[0] not in [x[0] for x in conds]:
+                              conds.append(cnd)
+                  for sb, sw, al in conds:
                     if sw.t.get("discr_ty") == "char":
                         vals = [v for v, _ in al if v != "otherwise"]
                         if len(vals) == 1 and len(al) == 1:
@@ -283,8 +311,8 @@ def run_cfg(ctx, p, cfg, release):
                         cc = cons_by_block[d[3]]
                         if cc[0] == "const":
                             chars.append((sb, cc[2]))
-                seq = "".join(ch for _, ch in sorted(chars, key=lambda x: sum(1 for y in chars if f.dominates(y[0], x[0]))))
-                got.setdefault(seq, set()).add(txt[2])
+                  seq = "".join(ch for _, ch in sorted(chars, key=lambda x: sum(1 for y in chars if f.dominates(y[0], x[0]))))
+                  got.setdefault(seq, set()).add(txt[2])
         want = {"{{": "{", "}}": "}", "((": "(", "))": ")", "\\{": "{", "\\}": "}", "\\(": "(", "\\)": ")", "\\\\": "\\"}
         for k, v in want.items():
             r.require(got.get(k) == {v}, "escape:%s" % k, fn=f, detail="%r -> %s (expected %r)" % (k, sorted(got.get(k, [])), v))
